@@ -13,7 +13,7 @@ S=$(mktemp -d /var/tmp/vlab.XXXXXX)
 trap 'rm -rf "$S"' EXIT
 mkdir -p "$S/bin" "$VERIF_DIR/evidence/replay"
 
-needs_race() { case "$1" in C06|C07|C09|C10|C11|C20) return 0;; esac; [ "$TIER" = thorough ] && case "$1" in C01) return 0;; esac; return 1; }
+needs_race() { case "$1" in C06|C07|C09|C10|C11|C13|C20) return 0;; esac; [ "$TIER" = thorough ] && case "$1" in C01) return 0;; esac; return 1; }
 needs_auth() { case "$1" in C05|C10|C14) return 0;; esac; return 1; }
 
 build_log="$S/build.log"
